@@ -10,7 +10,7 @@ from .decks import WORLD_SURF
 FAMILIES = ['depth1', 'depth2', 'depth3', 'depth4', 'reuse-diff-tr',
             'reuse-same-tr', 'fill-num', 'fill-inline3', 'fill-inline12',
             'fill-star', 'trcl-only', 'both', 'filler-trcl', 'filler-compl',
-            'clip', 'mixed']
+            'clip', 'both-identity-fill', 'mixed']
 
 SLOTS = [(-5.0, -5.0, 0.0), (0.0, -5.0, 0.5), (5.0, -5.0, -0.5),
          (-5.0, 0.0, 0.5), (0.0, 0.0, 0.0), (5.0, 0.0, 0.3),
@@ -232,6 +232,33 @@ def build(rng, family):
             add(rng.choice(['num', 'inline12', 'star']),
                 bld.universe(0), slots[k],
                 trcl_form=rng.choice(['num', 'inline12', 'star']))
+    elif family == 'both-identity-fill':
+        # an explicit IDENTITY fill transformation still counts as a fill
+        # transformation: the container's TRCL must not move the filler
+        for k in range(rng.randint(1, 2)):
+            uni = bld.universe(0)
+            cid = len(containers) + 1
+            spelling = rng.choice(['inline3', 'inline12', 'star', 'num3',
+                                   'num12'])
+            ident = Motion()
+            if spelling.startswith('num'):
+                tid = bld.next_tr
+                bld.next_tr += 1
+                deck.trs.append(tr_card(rng, tid, ident,
+                                        '3' if spelling == 'num3' else '12'))
+                fill = M.Fill(universe=uni, tr=M.TrSpec(number=tid))
+            else:
+                fill = M.Fill(universe=uni, tr=tr_spec(rng, ident, spelling))
+            # small displacement so that the unmoved universe content is
+            # still inside the moved container
+            tmot = motion_of_class(rng, rng.choice(['generic', 'translation',
+                                                    'quarter']))
+            tmot = Motion([rnd(rng, -0.6, 0.6) for _ in range(3)], tmot.b)
+            trcl = tr_spec(rng, tmot, rng.choice(['inline12', 'star']))
+            if k == 0:
+                bld.container(cid, (0.0, 0.0, 0.0), fill, trcl=trcl,
+                              at_origin=True)
+                containers.append(cid)
     elif family == 'filler-trcl':
         uni = bld.universe(0, style='plane-sphere')
         # give one filler cell its own TRCL (a pure translation keeps the
